@@ -44,6 +44,8 @@ def sel_case(draw, tier):
     for tail_ in draw(st.lists(st.sampled_from([b"a", "a", None, 1, 1.0, "b", b"b", (), []]), max_size=3)):
         p.append(tuple(base) + (tail_,))
         p.append(list(base) + [tail_])
+    if draw(st.booleans()):
+        p.extend(draw(st.sampled_from(gen.SEQ_TWINS + gen.SEQ_NEAR)))
     cell = st.sampled_from(p)
     nf = draw(st.sampled_from([1, 2, 3]))
     hdr = ["a", "b", "c"][:nf]
